@@ -258,8 +258,8 @@ def one_program(ctx, B, h, wa, name, path):
                                             "wasm": rl[k2] if k2 < len(rl) else "<none: %s>" % ref["st"][:40], "applied": chosen}
             return res
     needed = []
-    if len(chosen) == 1 and not extra:
-        needed = list(chosen)
+    if (len(chosen) == 1 and not extra) or ctx.tier == "quick":
+        needed = list(chosen)             # quick tier: the cumulative prefix (a superset of the minimal set) names the causes
     else:
         for nm in chosen:
             n2, _ = build_run([x for x in chosen if x != nm], "wo_" + nm[:12])
@@ -275,9 +275,9 @@ def run_programs(ctx, B, h, dist, samples, nontrivial):
     quick = ctx.tier == "quick"
     ex = example_programs()
     if quick:
-        ex = ctx.rng.sample(ex, min(6, len(ex)))
+        ex = ctx.rng.sample(ex, min(5, len(ex)))
     progs = [(n, p, None) for n, p in corpus_programs()] + [(n, p, None) for n, p in ex]
-    progs += generated_programs(ctx, 5 if quick else 300)
+    progs += generated_programs(ctx, 4 if quick else 300)
     with cf.ThreadPoolExecutor(16) as ex:
         results = list(ex.map(lambda a: one_program(ctx, B, h, wa, a[0], a[1]), progs))
     verdicts = {}
